@@ -93,6 +93,15 @@ func (c *CRLRevocationChecker) Cleanup() error {
 	if c.crlUpdateTicker != nil {
 		c.crlUpdateTicker.Stop()
 	}
+	if c.crlUpdateStop != nil {
+		//end the updater goroutine started by initCRLUpdateTicker
+		select {
+		case <-c.crlUpdateStop:
+			//already closed by an earlier Cleanup
+		default:
+			close(c.crlUpdateStop)
+		}
+	}
 	return nil
 }
 func (c *CRLRevocationChecker) addCrlUrlsFromConfig(chains *core.CertificateChains) error {
